@@ -57,18 +57,26 @@ class Splitter:
                 r = r + Lin.sym(self._name(mono)).scale(c)
         return r
 
+    @staticmethod
+    def _integral(d: Lin) -> Lin:
+        """Scale to integer coefficients (so that `> 0` means `>= 1`)."""
+        from math import lcm
+        m = 1
+        for v in list(d.co.values()) + [d.c]:
+            m = lcm(m, Fraction(v).denominator)
+        return d.scale(m) if m != 1 else d
+
     def facts_of(self, c: tuple, truth: bool) -> list[list[Lin]]:
         """Atomic condition -> disjunction (list) of conjunctions of facts."""
         one = 1 if self.integer else 0
         k = c[0]
+        if k in ("lt", "le", "eq"):
+            d = self._integral(self.lin(c[2] - c[1]))
         if k == "lt":
-            d = self.lin(c[2] - c[1])
             return [[d - one]] if truth else [[-d]]
         if k == "le":
-            d = self.lin(c[2] - c[1])
             return [[d]] if truth else [[-d - one]]
         if k == "eq":
-            d = self.lin(c[2] - c[1])
             if truth:
                 return [[d, -d]]
             return [[d - one], [-d - one]]
@@ -254,7 +262,22 @@ class Splitter:
             if a == b:
                 return True
             d = self.lin(a - b)
-            return entails(facts, d) and entails(facts, -d)
+            if entails(facts, d) and entails(facts, -d):
+                return True
+            # floordiv(A, B) is the constant k when k*B <= A <= k*B + B - 1
+            diff = a - b
+            for at in sorted(diff.atoms(), key=repr):
+                if at[0] == "app" and at[1] == "floordiv" and len(
+                        at[2]) == 2:
+                    A, B = at[2]
+                    for k in (0, 1, -1):
+                        kb = B.scale(k)
+                        if entails(facts, self.lin(A - kb)) and entails(
+                                facts, self.lin(kb + B - Poly.const(1) - A)):
+                            sub = {at: Poly.const(k)}
+                            return self.equal(a.subst(sub), b.subst(sub),
+                                              facts)
+            return False
         return a == b
 
 
